@@ -49,6 +49,35 @@ class StrMode(str, enum.Enum):
 ENUM_OPAQUES = {21: IntMode.FAST, 22: StrMode.FAST}
 
 
+class AnyEq:
+  """Compares equal to everything (like unittest.mock.ANY): only identity tells it from gin.REQUIRED."""
+  _all = {}
+
+  def __init__(self, oid):
+    self.oid = oid
+
+  @classmethod
+  def get(cls, oid):
+    if oid not in cls._all:
+      cls._all[oid] = AnyEq(oid)
+    return cls._all[oid]
+
+  def __eq__(self, other):
+    return True
+
+  def __ne__(self, other):
+    return False
+
+  def __hash__(self):
+    return 7
+
+  def __deepcopy__(self, memo):
+    return AnyEq(self.oid + 100000)
+
+  def __repr__(self):
+    return f'<AnyEq {self.oid} at 0x7f00>'
+
+
 class ProbeResult:
   """What a probe configurable returns."""
 
@@ -91,6 +120,8 @@ def encode(v, gin=None, session=None):
     return {'d': sorted(([encode(k, gin, session), encode(x, gin, session)] for k, x in v.items()), key=lambda kv: canon(kv[0]))}
   if t in (set, frozenset):
     return {'set': sorted((encode(x, gin, session) for x in v), key=canon)}
+  if t is AnyEq:
+    return {'o': v.oid}
   if t is IntMode:
     return {'o': 21}
   if t is StrMode:
@@ -146,6 +177,8 @@ def decode(j, gin=None):
     if 'o' in j:
       if j['o'] in ENUM_OPAQUES:
         return ENUM_OPAQUES[j['o']]
+      if 460 <= j['o'] < 470:
+        return AnyEq.get(j['o'])
       return Opaque.get(j['o'])
     if 'req' in j:
       return gin.config.REQUIRED
